@@ -24,5 +24,9 @@ Fixpoint c06_trace_full (S : SOps) (Nf : nat) (st : @sis_state S (list (T S))) (
 (* the quantities the resampling decision is taken on, per state *)
 Definition c06_neff (S : SOps) (lw : list (T S)) : T S := neff S lw.
 Definition c06_lse (S : SOps) (lw : list (T S)) : T S := lse S lw.
+(* parents, cumulative weights and comb of a resampling call (near-boundary rule of the comparison) *)
+Definition c06_parents (S : SOps) (lw : list (T S)) (u1 : T S) : list nat := res_parents S lw u1.
+Definition c06_csw (S : SOps) (lw : list (T S)) : list (T S) := csw S lw.
+Definition c06_comb (S : SOps) (N : nat) (u1 : T S) : list (T S) := map (comb S N u1) (seq 0 N).
 
-Extraction "C06_model.ml" c06_trace c06_trace_full c06_neff c06_lse.
+Extraction "C06_model.ml" c06_trace c06_trace_full c06_neff c06_lse c06_parents c06_csw c06_comb.
